@@ -581,11 +581,16 @@ pub fn lying_amf0_body() -> BoxedStrategy<Vec<u8>> {
             if start >= 3 {
                 b.push(0x05);
             }
-            b.push(marker);
-            match marker {
-                0x02 => b.extend_from_slice(&[(count >> 24) as u8, (count >> 16) as u8]),
-                0x03 => b.extend_from_slice(&[0x00, 0x01, 0x61, 0x0A, (count >> 24) as u8, (count >> 16) as u8, (count >> 8) as u8, count as u8]),
-                _ => b.extend_from_slice(&count.to_be_bytes()),
+            // containers are nested `reps` times: a decoder that works through the announced count
+            // at every level costs `reps` times as much, far beyond the watchdog
+            let reps = match tail.len() % 4 { 0 => 1, 1 => 8, 2 => 40, _ => 100 };
+            for _ in 0..(if marker == 0x0A || marker == 0x03 { reps } else { 1 }) {
+                b.push(marker);
+                match marker {
+                    0x02 => b.extend_from_slice(&[(count >> 24) as u8, (count >> 16) as u8]),
+                    0x03 => b.extend_from_slice(&[0x00, 0x01, 0x61, 0x0A, (count >> 24) as u8, (count >> 16) as u8, (count >> 8) as u8, count as u8]),
+                    _ => b.extend_from_slice(&count.to_be_bytes()),
+                }
             }
             b.extend(tail);
             b
@@ -691,11 +696,14 @@ fn fixed(_ctx: &Ctx) -> Vec<Case> {
             v.push(Case { target: tgt, input: Input::Framed(vec![(FItem::SetChunkSize(n), 0), (FItem::Raw { type_id: 9, body: vec![7; 300], msid: 1 }, 0), (FItem::UserControl { event: 6, fields: vec![5] }, 0)]), partition: Partition::Whole });
         }
     }
-    // AMF0 strict array announcing 2^32-1 elements and holding one (seeded change C03-r7m1: an element
+    // 40 nested AMF0 strict arrays each announcing 2^32-1 elements and holding one (seeded change C03-r7m1: an element
     // loop that no longer stops at the end of the input)
     for (type_id, pre) in [(20u8, &[0x02u8, 0x00, 0x01, 0x78, 0x00, 0x3F, 0xF0, 0, 0, 0, 0, 0, 0][..]), (18, &[][..])] {
         let mut body = pre.to_vec();
-        body.extend_from_slice(&[0x0A, 0xFF, 0xFF, 0xFF, 0xFF, 0x05]);
+        for _ in 0..40 {
+            body.extend_from_slice(&[0x0A, 0xFF, 0xFF, 0xFF, 0xFF]);
+        }
+        body.push(0x05);
         v.push(Case { target: Target::MessageDecoder, input: Input::Raw([&[type_id, 0, body.len() as u8][..], &body[..]].concat()), partition: Partition::Whole });
         v.push(Case { target: Target::Server(1), input: Input::Framed(vec![(FItem::Raw { type_id, body: body.clone(), msid: 0 }, 0)]), partition: Partition::Whole });
         v.push(Case { target: Target::Client(1), input: Input::Framed(vec![(FItem::Raw { type_id, body, msid: 0 }, 0)]), partition: Partition::Whole });
